@@ -111,7 +111,7 @@ Fixpoint expr_eqb (a b : expr) : bool :=
   | EBin o l r, EBin o' l' r' => binop_eqb o o' && expr_eqb l l' && expr_eqb r r'
   | EUn u x, EUn u' x' => unop_eqb u u' && expr_eqb x x'
   | EParen x, EParen x' => expr_eqb x x'
-  | ECast x k, ECast x' k' => Nat.eqb (ckind_index k) (ckind_index k') && expr_eqb x x'
+  | ECast x k, ECast x' k' => ty_eqb k k' && expr_eqb x x'
   | _, _ => false
   end.
 
@@ -126,7 +126,7 @@ Definition ptok_eqb (a b : ptok) : bool :=
   | KAtom x, KAtom y => x =? y
   | KOp s, KOp s' => Nat.eqb (opsym_index s) (opsym_index s')
   | KLp, KLp | KRp, KRp => true
-  | KCast k, KCast k' => Nat.eqb (ckind_index k) (ckind_index k')
+  | KCast k, KCast k' => ty_eqb k k'
   | _, _ => false
   end.
 Fixpoint ptoks_eqb (a b : list ptok) : bool :=
@@ -166,62 +166,75 @@ Definition ptok_of_token (t : token) : option ptok :=
   | _ => None
   end.
 
-Definition is_upper_name (t : token) : bool :=
+(** the concrete spelling of the types of the cast stream (the harness builds exactly these
+    types through darklua's constructors): T, T<P>, M.T, M.T<P>, ()->r, ()->...r, ()->(A,B),
+    <G...>()->G..., A|last, A&last, T?, typeof(z), {}, {T}, (T), 'lit', true, nil *)
+Definition nm (s : string) : token := (TName, of_string s).
+Definition sy (s : string) : token := (TSym, of_string s).
+Fixpoint ty_text (t : ty) : list token :=
   match t with
-  | (TName, c :: _) => (65 <=? c) && (c <=? 90)
-  | _ => false
-  end.
-Definition is_sym (s : bytes) (t : token) : bool := token_eqb t (TSym, s).
-
-(** the types of the cast stream: after "::" a type name starting with an upper-case letter
-    ([T]), optionally ".Name" ([M.T], still a bare name), "<Name>" type parameters ([T<P>]) or
-    "?" ([T?]); anything else after "::" is outside the modelled fragment ([None]) *)
-Definition cast_type (l : list token) : option (ckind * list token) :=
-  match l with
-  | n :: l1 =>
-    if is_upper_name n then
-      match l1 with
-      | d :: f :: l2 =>
-        if is_sym [46] d && is_upper_name f then Some (CBare, l2)
-        else if is_sym [60] d && is_upper_name f then
-          match l2 with
-          | g :: l3 => if is_sym [62] g then Some (CParam, l3) else Some (CBare, l1)
-          | [] => Some (CBare, l1)
-          end
-        else if is_sym [63] d then Some (CParam, f :: l2)
-        else Some (CBare, l1)
-      | [d] => if is_sym [63] d then Some (CParam, []) else Some (CBare, l1)
-      | [] => Some (CBare, [])
-      end
-    else None
-  | [] => None
+  | TyName false => [nm "T"]
+  | TyName true => [nm "T"; sy "<"; nm "P"; sy ">"]
+  | TyField false => [nm "M"; sy "."; nm "T"]
+  | TyField true => [nm "M"; sy "."; nm "T"; sy "<"; nm "P"; sy ">"]
+  | TyFunType r => [sy "("; sy ")"; sy "->"] ++ ty_text r
+  | TyFunVariadic r => [sy "("; sy ")"; sy "->"; sy "..."] ++ ty_text r
+  | TyFunPack => [sy "("; sy ")"; sy "->"; sy "("; nm "A"; sy ","; nm "B"; sy ")"]
+  | TyFunGeneric => [sy "<"; nm "G"; sy "..."; sy ">"; sy "("; sy ")"; sy "->"; nm "G"; sy "..."]
+  | TyUnion l => [nm "A"; sy "|"] ++ ty_text l
+  | TyInter l => [nm "A"; sy "&"] ++ ty_text l
+  | TyOptional => [nm "T"; sy "?"]
+  | TyTypeOf => [nm "typeof"; sy "("; nm "z"; sy ")"]
+  | TyTable => [sy "{"; sy "}"]
+  | TyArray => [sy "{"; nm "T"; sy "}"]
+  | TyParen => [sy "("; nm "T"; sy ")"]
+  | TyString => [(TString, of_string "'lit'")]
+  | TyBool => [nm "true"]
+  | TyNil => [nm "nil"]
   end.
 
-Fixpoint ptoks_fuel (f : nat) (l : list token) : option (list ptok) :=
+Fixpoint tokens_prefix (p l : list token) : option (list token) :=
+  match p, l with
+  | [], _ => Some l
+  | x :: p', y :: l' => if token_eqb x y then tokens_prefix p' l' else None
+  | _ :: _, [] => None
+  end.
+
+(** tokens of the real text -> abstract tokens; the text after each "::" must be the spelling of
+    the next expected cast type ([tys], in order of appearance) *)
+Fixpoint ptoks_fuel (f : nat) (tys : list ty) (l : list token) : option (list ptok) :=
   match f with
   | O => None
   | S f' =>
     match l with
     | [] => Some []
     | t :: l' =>
-      if is_sym [58; 58] t then
-        match cast_type l' with
-        | Some (k, r) => option_map (cons (KCast k)) (ptoks_fuel f' r)
-        | None => None
+      if token_eqb t (TSym, [58; 58]) then
+        match tys with
+        | k :: tys' =>
+          match tokens_prefix (ty_text k) l' with
+          | Some r => option_map (cons (KCast k)) (ptoks_fuel f' tys' r)
+          | None => None
+          end
+        | [] => None
         end
       else
-        match ptok_of_token t, ptoks_fuel f' l' with
+        match ptok_of_token t, ptoks_fuel f' tys l' with
         | Some p, Some r => Some (p :: r)
         | _, _ => None
         end
     end
   end.
-Definition ptoks_of_tokens (l : list token) : option (list ptok) := ptoks_fuel (S (List.length l)) l.
+Definition ptoks_of_tokens (tys : list ty) (l : list token) : option (list ptok) :=
+  ptoks_fuel (S (List.length l)) tys l.
+
+Definition cast_types (toks : list ptok) : list ty :=
+  flat_map (fun k => match k with KCast t => [t] | _ => [] end) toks.
 
 (** tokens of the expression in [return <expression>] *)
-Definition expr_ptoks (text : bytes) : option (list ptok) :=
+Definition expr_ptoks (tys : list ty) (text : bytes) : option (list ptok) :=
   match lex text with
-  | Some ((TName, r) :: l) => if bytes_eqb r (of_string "return") then ptoks_of_tokens l else None
+  | Some ((TName, r) :: l) => if bytes_eqb r (of_string "return") then ptoks_of_tokens tys l else None
   | _ => None
   end.
 
@@ -230,7 +243,7 @@ Variable P : ptable.
 
 (** (1) model = code: the generator wrote exactly the tokens of the modelled printer *)
 Definition p_model_ok (text : bytes) (e : expr) : bool :=
-  match expr_ptoks text with
+  match expr_ptoks (cast_types (tokens_of_expr P e)) text with
   | Some l => ptoks_eqb l (tokens_of_expr P e)
   | None => false
   end.
@@ -238,7 +251,7 @@ Definition p_model_ok (text : bytes) (e : expr) : bool :=
 (** (2) oracle, independent of the model of the printer: the REFERENCE parser reads the real
     text back as a tree with the same operator nesting *)
 Definition p_oracle_ok (text : bytes) (e : expr) : bool :=
-  match expr_ptoks text with
+  match expr_ptoks (cast_types (tokens_of_expr P e)) text with
   | Some l => match parse_expr l with
               | Some e' => expr_eqb (strip e') (strip e)
               | None => false
@@ -321,8 +334,31 @@ Definition one_string_ok (value text : bytes) : bool :=
   | None => false
   end.
 
+(** the same for a backtick string with one text segment: exactly one [TInterp] token, whose body
+    (between the backticks) the reference unescaper (delimiter "`") decodes to the value *)
+Definition one_interp_ok (value text : bytes) : bool :=
+  match lex text with
+  | Some toks =>
+    match filter (fun t => tkind_eqb (fst t) TInterp) toks with
+    | [(_, 96 :: s)] =>
+      match rev s with
+      | 96 :: rbody =>
+        match StringLit.unescape true 96 (rev rbody) with
+        | Some v => bytes_eqb v value
+        | None => false
+        end
+      | _ => false
+      end
+    | _ => false
+    end
+  | None => false
+  end.
+
 Definition vcheck_case (c : vcase) : bool :=
   one_string_ok (v_value c) (v_dense c) && one_string_ok (v_value c) (v_readable c).
+
+Definition icheck_case (c : vcase) : bool :=
+  one_interp_ok (v_value c) (v_dense c) && one_interp_ok (v_value c) (v_readable c).
 
 Definition vdiag_bytes (c : vcase) : bytes :=
   (if one_string_ok (v_value c) (v_dense c) then [] else of_string "STRING-DENSE ") ++
